@@ -27,7 +27,9 @@
 //	g.Vector(t)  string            an instant-vector expression
 //	g.Scalar(t)  string            a scalar expression
 //	g.Join(t)    string            a vector-to-vector binary operation whose two sides are biased to carry
-//	                               different label sets (aggregations by/without, equality matchers)
+//	                               different label sets (aggregations by/without, equality matchers); 2 in 5 are
+//	                               "overlap joins": one side a nested aggregation/join with overlapping label lists
+//	                               (by-over-without, by-over-ignoring ...), joined on(L) with a side lacking L
 //	g.Top(t)     string            Vector, sometimes `X or Y` (when g.OrTop), sometimes Scalar (when g.ScalarTop)
 //
 // All generated text parses with the Prometheus parser (the generator is typed);
